@@ -399,8 +399,36 @@ func checkC19(c *ctx) {
 	scens = append(scens,
 		scen{name: "merge of three segments, field optimized for memory efficiency", inputs: []zh.Batch{mkBatch(3, 1, 1, "ma"), mkBatch(4, 2, 1, "mb"), mkBatch(2, 1, 1, "mc")}, drops: [][]uint64{nil, {2}, nil}, fields: sx.L(sx.L(sx.N(3), sx.Bool(false)))},
 		scen{name: "merge with a clustered memory-efficient input", inputs: []zh.Batch{mkBatch(510, 2, 1, "md"), mkBatch(3, 1, 1, "me")}, drops: [][]uint64{{7}, nil}, ivf: true, fields: sx.L(sx.L(sx.N(2), sx.Bool(true)))})
+	// two inputs whose serialized indexes exceed 1 MiB each (550 vectors of 512 dimensions)
+	mkWide := func(n int, id string) zh.Batch {
+		var b zh.Batch
+		for d := 0; d < n; d++ {
+			v := make([]float32, 512)
+			for i := range v {
+				v[i] = float32((d*13+i*5+len(id))%89) / 8
+			}
+			b = append(b, zh.Doc{Fields: []zh.Field{zh.IDField(fmt.Sprintf("%s%05d", id, d)),
+				{Name: "vec", Typ: 'v', Vec: &zh.VecDef{Dims: 512, Sim: "l2_norm", Opt: "recall", Data: v}}}})
+		}
+		return b
+	}
+	allBut := func(n int, keep ...uint64) []uint64 {
+		k := map[uint64]bool{}
+		for _, x := range keep {
+			k[x] = true
+		}
+		var rv []uint64
+		for d := uint64(0); d < uint64(n); d++ {
+			if !k[d] {
+				rv = append(rv, d)
+			}
+		}
+		return rv
+	}
 	optFor = "recall"
 	scens = append(scens,
+		scen{name: "merge of two inputs whose serialized indexes exceed 1 MiB each", inputs: []zh.Batch{mkWide(550, "wa"), mkWide(560, "wb")}, drops: [][]uint64{{3}, nil}, ivf: true, fields: sx.L(sx.L(sx.N(2), sx.Bool(true)))},
+		scen{name: "merge of a clustered input of which 2 documents (4 vectors) survive, and a small input", inputs: []zh.Batch{mkBatch(520, 2, 1, "ka"), mkBatch(3, 1, 1, "kb")}, drops: [][]uint64{allBut(520, 17, 300), nil}, fields: sx.L(sx.L(sx.N(2), sx.Bool(false)))},
 		scen{name: "merge with an input of 4200 live vectors", inputs: []zh.Batch{mkBatch(2100, 2, 1, "va"), mkBatch(3, 1, 1, "vb")}, drops: [][]uint64{nil, {1}}, ivf: true, fields: sx.L(sx.L(sx.N(2), sx.Bool(true)))},
 		scen{name: "merge of a clustered input without deletions and two fully deleted small segments (a single clustered contributor)", inputs: []zh.Batch{mkBatch(2, 1, 1, "ua"), mkBatch(520, 2, 1, "ub"), mkBatch(2, 1, 1, "uc")}, drops: [][]uint64{{0, 1}, nil, {0, 1}}, ivf: true, fields: sx.L(sx.L(sx.N(1), sx.Bool(true)))})
 	ops := []string{"IndexFactory", "SetDirectMap", "Train", "AddWithIDs", "WriteIndexIntoBuffer", "ReadIndexFromBuffer", "ReconstructBatch"}
